@@ -252,11 +252,19 @@ func (m *slashMonitor) After(c *Chain, w *World, br *BlockResult, outs []TxOutco
 			if d.DisputeCategory == disputetypes.Minor {
 				wantUntil = br.Time.Add(600 * time.Second)
 			}
-			if err != nil || !r.Jailed {
+			unjailedSameBlock := false
+			for _, o := range outs {
+				if o.OK() && o.Tx.Op.K == OpUnjailReporter && o.Tx.Signer.Addr.Equals(repAddr) {
+					unjailedSameBlock = true // "release possible at once": the reporter freed itself later in this very block
+				}
+			}
+			if unjailedSameBlock {
+				m.skippedExact++
+			} else if err != nil || !r.Jailed {
 				viol = pbt.Violf("C11/reporter-not-jailed", "block %d: %s dispute %d funded but the reporter is not jailed", br.Height, d.DisputeCategory, id)
 				return true, nil
 			}
-			if !r.JailedUntil.Equal(wantUntil) {
+			if !unjailedSameBlock && !r.JailedUntil.Equal(wantUntil) {
 				viol = pbt.Violf("C11/jail-release-time/"+d.DisputeCategory.String(), "block %d: reporter jailed until %s, expected %s", br.Height, r.JailedUntil, wantUntil)
 				return true, nil
 			}
@@ -302,6 +310,18 @@ func (m *slashMonitor) After(c *Chain, w *World, br *BlockResult, outs []TxOutco
 			return false, nil
 		}
 		totalLoss := new(big.Int)
+		// a backer that no longer holds its share (an earlier slash took part of it) cannot lose it exactly;
+		// then only the consistency of the record with what was taken is checked below (finding F-C11-5)
+		exhausted := false
+		for a, contrib := range backers {
+			b0 := m.before.total[a]
+			if b0 == nil {
+				b0 = new(big.Int)
+			}
+			if new(big.Int).Mul(b0, originSum).Cmp(new(big.Int).Mul(X, contrib)) < 0 {
+				exhausted = true
+			}
+		}
 		for a, contrib := range backers {
 			b0, a0 := m.before.total[a], after.total[a]
 			if b0 == nil {
@@ -317,7 +337,7 @@ func (m *slashMonitor) After(c *Chain, w *World, br *BlockResult, outs []TxOutco
 			rhs := new(big.Int).Mul(X, contrib)
 			diff := new(big.Int).Abs(new(big.Int).Sub(lhs, rhs))
 			tol := new(big.Int).Mul(big.NewInt(int64(2+len(rec.TokenOrigins))), originSum)
-			if diff.Cmp(tol) > 0 {
+			if diff.Cmp(tol) > 0 && !exhausted {
 				sig := "C11/backer-share-not-proportional"
 				if rec.Total.BigInt().Cmp(new(big.Int).Mul(new(big.Int).SetUint64(stored.Power), big.NewInt(1_000_000))) != 0 {
 					sig += "/stake-not-whole-tokens"
